@@ -572,12 +572,14 @@ def run_e2e_case(ctx: Ctx, case, pool, verbose=False):
         if rc != 0:
             return [("ref", False, None, f"reference run failed rc={rc} {err}")]
         ref = snapshot(d, "ref")
+        # every subprocess must be done before an in-process variant may touch the input files (samepath-torch)
+        done = {v: f.result() for v, f in futs.items()}
         for v in case["variants"]:
             kind, _, arg = v.partition(":")
             base = "v_" + v.replace(":", "")
             note = ""
-            if v in futs:
-                rc, err = futs[v].result()
+            if v in done:
+                rc, err = done[v]
             else:
                 if kind == "after":
                     if arg == "A":
@@ -638,7 +640,7 @@ def gen_e2e_cases(ctx: Ctx):
     for k in range(n):
         scen = {"R": rng.choice([2, 3, 4] if ctx.quick() else [2, 3, 4, 5, 8]), "groups": rng.randint(1, 2), "kernels": rng.randint(1, 3),
                 "seed": rng.randint(0, 10 ** 6)}
-        variants = list(VARIANTS_QUICK) if ctx.quick() else VARIANTS_QUICK + [f"seed:{rng.randint(2, 10 ** 6)}" for _ in range(6)] + ["I:11"]
+        variants = list(VARIANTS_QUICK) if ctx.quick() else VARIANTS_QUICK + [f"seed:{s}" for s in rng.sample(range(100, 10 ** 6), 6)] + ["I:11"]
         rng.shuffle(variants)
         yield {"kind": "e2e", "scen": scen, "opts": optsets[k % len(optsets)] if k else [], "variants": variants, "seed": rng.randint(0, 10 ** 6)}
     # the compiler-log path (rcu_utilization keeps fingerprints built from hash(str))
